@@ -220,10 +220,17 @@ def on_curve_x(r):
             return x
 
 
-def sig_mutations(r, pk, m, sig, nflips):
+def sig_mutations(r, d, pk, m, sig, nflips):
     rb, sb = sig[:32], sig[32:]
     rr, s = int.from_bytes(rb, "big"), int.from_bytes(sb, "big")
     yield "valid", (pk, m, sig)
+    # signer-side forgery of the parity rule: s' = 2*e*d_even - s gives R' = -R (same x, odd y)
+    q = ecref.mul(d, ecref.G)
+    de = d if q[1] % 2 == 0 else N - d
+    e = int.from_bytes(ecref.tagged(b"BIP0340/challenge", rb + pk + m), "big") % N
+    yield "R-negated(odd-y)", (pk, m, rb + b32((2 * e * de - s) % N))
+    # ... and of the key parity: the signature made with the un-normalised secret (odd-y key)
+    yield "s-for-odd-key", (pk, m, rb + b32((s - 2 * e * de) % N))
     yield "R=0", (pk, m, bytes(32) + sb)
     yield "R=p", (pk, m, b32(P) + sb)
     yield "R=p+x", (pk, m, b32(P + rr) + sb if P + rr < TWO256 else b32(TWO256 - 1) + sb)
@@ -321,7 +328,7 @@ def generate(ctx):
         k0 = i_bip340_k(d, m, a)
         ctx.label("sign/P-odd" if q[1] % 2 else "sign/P-even")
         ctx.label("sign/R-odd" if ecref.mul(k0, ecref.G)[1] % 2 else "sign/R-even")
-        signed.append((b32(q[0]), m, sig))
+        signed.append((d, b32(q[0]), m, sig))
     for d in BAD_SECRETS:
         yield ("corr", "sign_schnorr", [d, bytes(32), bytes(32)])
         if d >= 0:
@@ -335,10 +342,10 @@ def generate(ctx):
     # ---- verification: catalogue + bit flips
     nsig = ctx.n(3, 12)
     nfull = 0 if ctx.tier == "quick" else max(1, int(4 * ctx.scale))     # signatures with all 512 single-bit flips
-    for i, (pk, m, sig) in enumerate(signed[:: max(1, len(signed) // nsig)][:nsig]):
+    for i, (d, pk, m, sig) in enumerate(signed[:: max(1, len(signed) // nsig)][:nsig]):
         nflips = 512 if i < nfull else 24
         ctx.label("verify/all-512-flips" if i < nfull else "verify/24-sampled-flips")
-        for name, (pk2, m2, sig2) in sig_mutations(r, pk, m, sig, nflips):
+        for name, (pk2, m2, sig2) in sig_mutations(r, d, pk, m, sig, nflips):
             ctx.label("verify/" + name)
             yield ("corr", "verify_schnorr", [pk2, m2, sig2])
             yield ("corr", "bip340_verify", [pk2, m2, sig2])
